@@ -9,7 +9,7 @@ FC_INVS = ["SyncNow", "BeliefSound", "OneLast", "Structure", "FreshFrame"]
 
 def model_and_replay(ctx, stride=1, max_frames=2, max_blocks=2):
     cfg = ctx.path("MC_FrameCompressor.cfg")
-    consts = {"MaxFrames": max_frames, "MaxBlocks": max_blocks, "Levels": '{"U", "F"}', "Frags": "{0, 7, 9}", "Dev_F5": "FALSE", "Dev_LitRaw": "FALSE"}
+    consts = {"MaxFrames": max_frames, "MaxBlocks": max_blocks, "Levels": '{"U", "F"}', "Frags": "{0, 7, 9}", "Dev_F5": "FALSE", "Dev_LitRaw": "FALSE", "Dev_HashOnSetSource": "FALSE"}
     write_cfg(cfg, constants=consts, invariants=FC_INVS)
     dot = ctx.path("fc.dot")
     res = tlc(ctx, "FrameCompressor", cfg, workers=8, dump=dot, name="MC_FrameCompressor")
@@ -25,6 +25,11 @@ def model_and_replay(ctx, stride=1, max_frames=2, max_blocks=2):
     r6 = tlc(ctx, "FrameCompressor", cfg6, workers=4, name="MC_FrameCompressor_LitRaw")
     if r6.inv_violated != "BeliefSound":
         raise ToolError("self-test failed: the model with Dev_LitRaw does not violate BeliefSound (%s)" % (r6.inv_violated or r6.error))
+    cfg7 = ctx.path("MC_FrameCompressor_Hash.cfg")
+    write_cfg(cfg7, constants=dict(consts, Dev_HashOnSetSource="TRUE"), invariants=FC_INVS)
+    r7 = tlc(ctx, "FrameCompressor", cfg7, workers=4, name="MC_FrameCompressor_Hash")
+    if r7.inv_violated != "Structure":
+        raise ToolError("self-test failed: the model with Dev_HashOnSetSource does not violate Structure (%s)" % (r7.inv_violated or r7.error))
     ctx.states += res.distinct
     ctx.transitions += res.generated
     progs = ctx.path("fc_programs.ndjson")
@@ -47,7 +52,7 @@ def model_and_replay(ctx, stride=1, max_frames=2, max_blocks=2):
     ctx.add_samples(rj["samples"][:1], 1)
     # ---- trace validation of the recorded decisions ----
     tcfg = ctx.path("Trace_FrameCompressor.cfg")
-    write_cfg(tcfg, spec="TSpec", constants={"MaxFrames": 1000000, "MaxBlocks": 1000000, "Levels": '{"U", "F"}', "Frags": "{0}", "Dev_F5": "FALSE", "Dev_LitRaw": "FALSE"},
+    write_cfg(tcfg, spec="TSpec", constants={"MaxFrames": 1000000, "MaxBlocks": 1000000, "Levels": '{"U", "F"}', "Frags": "{0}", "Dev_F5": "FALSE", "Dev_LitRaw": "FALSE", "Dev_HashOnSetSource": "FALSE"},
               invariants=FC_INVS, postcondition="Accepted")
     ok, info, tres = trace_validate(ctx, "Trace_FrameCompressor", tcfg, trace, "tv_frame_compressor")
     ctx.traces += rj["programs"]
@@ -115,6 +120,8 @@ def random_programs(ctx, n, path):
                              "frag": rnd.choice([0, 0, 1, 7, 4096, 131071, "straddle"]) if ln < 300000 or rnd.random() < 0.5 else 0})
                 if prog[-1]["frag"] == 1 and ln > 200000:
                     prog[-1]["frag"] = 7
+                if k > 0 and rnd.random() < 0.3:
+                    prog[-1]["cont"] = True      # compress() again on the installed source (more data arrives), no set_source
             f.write(json.dumps(prog) + "\n")
 
 
